@@ -126,12 +126,12 @@ theorem optNat_beq_shift (m : Option Nat) (j k : Nat) : (m.map (· + k) == some 
 nodes.  Whatever `insertUO` makes of `X` alone, it makes of `X` inside `P ++ X ++ Q` (indices shifted by `|P|`) — provided an
 anchor is only given when there are instances (otherwise the lone-list shortcut of `lyd_diff_insert` and the failing anchor
 lookup differ). -/
-theorem insertUO_mid (S : Schema) (P X Q : List DNode) (n : DNode) (moving : Option Nat) (anchor : Option Bytes)
+theorem insertUO_mid (S : Schema) (hp : Bool) (P X Q : List DNode) (n : DNode) (moving : Option Nat) (anchor : Option Bytes)
     (X' : List DNode) (hd : S.isDupInst n.sid = false)
     (hX : ∀ x ∈ X, x.sid = n.sid) (hP : ∀ x ∈ P, x.sid < n.sid) (hQ : ∀ x ∈ Q, n.sid < x.sid)
     (hm : ∀ i, moving = some i → i < X.length) (hc : X ≠ [] ∨ anchor = none)
-    (h : insertUO S X false n moving anchor = .ok X') :
-    insertUO S (P ++ X ++ Q) false n (moving.map (· + P.length)) anchor = .ok (P ++ X' ++ Q) := by
+    (h : insertUO S X hp n moving anchor = .ok X') :
+    insertUO S (P ++ X ++ Q) hp n (moving.map (· + P.length)) anchor = .ok (P ++ X' ++ Q) := by
   have hPne : ∀ x ∈ P, x.sid ≠ n.sid := fun x hx => Nat.ne_of_lt (hP x hx)
   have hQne : ∀ x ∈ Q, x.sid ≠ n.sid := fun x hx => Nat.ne_of_gt (hQ x hx)
   by_cases hemp : (P ++ X ++ Q) = []
@@ -197,7 +197,7 @@ theorem insertUO_mid (S : Schema) (P X Q : List DNode) (n : DNode) (moving : Opt
         | nil => rfl
         | cons x xs => simp [findIdxFrom, hX x (by simp)] at hf
       subst hX0
-      simp only [List.isEmpty_nil, if_true, Bool.false_and, Bool.false_eq_true, if_false, Option.isSome_none,
+      simp only [List.isEmpty_nil, if_true, Bool.false_and, Bool.and_false, Bool.false_eq_true, if_false, Option.isSome_none,
         Except.ok.injEq] at h
       subst h
       simp only [Option.map_none, List.append_nil, Except.ok.injEq]
